@@ -6,7 +6,7 @@ import ast
 from ..model import CFG, PDA
 from . import names
 from .common import site_of
-from .flow import (element_of_field_or_copy, Oblig, calls, events, deps_of, arg_deps, SELF, P, result_locs)
+from .flow import (own, element_of_field_or_copy, Oblig, calls, events, deps_of, arg_deps, SELF, P, result_locs)
 
 PEPS = "pyformlang.pda.epsilon.Epsilon"
 EXPLANATION = (
@@ -70,7 +70,7 @@ def run(eng, rep, tier):
                       "every state can pop the bottom marker (epsilon move) into the new final state",
                       "the marker-pop edge into the new final state does not exist for every state", summ,
                       site=(to_end[0].site.to_json() if to_end else site_of(prog, fi, fi.node)))
-            news = [ev for ev in summ.events if ev.kind == "new" and ev.callee == PDA]
+            news = [ev for ev in own(summ) if ev.kind == "new" and ev.callee == PDA]
             okf = bool(news) and all(len(ev.args) >= 7 and ev.args[6].elem is not None and (ev.args[6].elem.alias & ends)
                                      and (ev.args[4].alias & starts) and (ev.args[5].alias & marker) for ev in news)
             ob.decide("R1", "C13.3", fi, "result-extremities", okf,
@@ -144,7 +144,7 @@ def run(eng, rep, tier):
     ob.decide("R1", "C13.5", fi, "consuming-move-per-terminal", okc,
               "one move per terminal reads it and pops its stack symbol",
               "to_pda does not add `read a, pop a` for every terminal", summ, site=site_of(prog, fi, fi.node))
-    news = [ev for ev in summ.events if ev.kind == "new" and ev.callee == PDA]
+    news = [ev for ev in own(summ) if ev.kind == "new" and ev.callee == PDA]
     kw = dict(news[0].kwargs) if news else {}
     oks = bool(news) and "start_stack_symbol" in kw and ("self", ("_start_symbol",)) in deps_of(kw["start_stack_symbol"])
     ob.decide("R1", "C13.5", fi, "start-stack-symbol=start-symbol", oks,
